@@ -11,11 +11,15 @@ defines the conversion, the conversion compiled by gcc and called through
 ctypes; the two must agree with each other (otherwise the harness is wrong) and
 cffi must agree with both.  Any exception is a violation ("succeeds").
 """
+import contextlib
 import ctypes
+import importlib.util
+import io
 import math
+import os
 import sys
 
-from .. import cref, pool
+from .. import build, cref, pool
 from ..build import InfraError
 from . import c03 as _c03
 
@@ -25,16 +29,35 @@ META = dict(
     engine="E1-enum", level="exploration",
     technique="exhaustive enumeration of target type x source kind x boundary value set against a reference of the C "
               "conversion and the gcc-compiled conversion",
-    text="ffi.cast(T, x) for all 50 integer/character types (10 standard, _Bool, 31 <stdint.h>/<stddef.h> names, 4 "
-         "enums, char, wchar_t, char16_t, char32_t) x {ints: B(T)+B(long long)+B(unsigned long long) up to 2^128 and "
-         "10^30; finite floats around every power of two that matters, +-0.5, 0.999.., 1e300, denormals; bools; all 256 "
+    text="ffi.cast(T, x) for all 68 integer/character target types (10 standard, _Bool, 31 <stdint.h>/<stddef.h> names, 4 "
+         "enums, char, wchar_t, char16_t, char32_t, 6 typedef names incl. anonymous enums, and 12 API-mode-only types "
+         "whose size and signedness come from the C compiler: 8 'typedef int... T' and 4 partial enums) x {ints: "
+         "B(T)+B(long long)+B(unsigned long long) up to 2^128 and "
+         "10^30, with the target given as a ctype object and by name on an in-line, an out-of-line ABI and a compiled "
+         "API-mode FFI; finite floats around every power of two that matters, +-0.5, 0.999.., 1e300, denormals; bools; all 256 "
          "bytes; one-character str incl. surrogates and U+10FFFF; pointer, array and function cdata at 7 synthetic and "
-         "several real addresses}: never raises, int() equals the reference and the gcc result; pointer -> "
+         "20 real addresses (owning, open-length and from_buffer arrays, ffi.gc, new_handle, addressof, pointers read "
+         "from memory, NULL, callbacks, functions of in-line and compiled libraries)}: never raises, int() and the bytes "
+         "the result stores equal the reference and the gcc result; pointer -> "
          "intptr_t/uintptr_t -> pointer returns the same address (observed by a C function through ctypes).",
     note="gcc 12 on this machine; conversions that are undefined in C (float outside the target range) are judged by the "
          "statement's modulo rule only; plain 'char' is judged as cffi defines it, a byte 0..255")
 
 CHARS = ["char", "wchar_t", "char16_t", "char32_t"]
+
+# typedef names (in-line cdef; the C side has the same text): the target is reached through a typedef / an
+# anonymous enum instead of a primitive name
+TYPEDEFS = {
+    "c04_us_t": "typedef unsigned short c04_us_t;",
+    "c04_l_t": "typedef long c04_l_t;",
+    "c04_i8_t": "typedef int8_t c04_i8_t;",
+    "c04_bool_t": "typedef _Bool c04_bool_t;",
+    "c04_e_t": "typedef enum { C04E_A = -1, C04E_B = 5 } c04_e_t;",
+    "c04_eu8_t": "typedef enum { C04EU_A, C04EU_B = 0x100000000 } c04_eu8_t;",
+}
+BOOLS = ("_Bool", "c04_bool_t")
+APIDEFS = _c03.APIDEFS          # API-mode-only targets: 8 'typedef int... T', 4 partial enums (see c03.py)
+STRUCT = "struct c04_s { int a; int (*fn)(int); void *p; };"
 HEADERS = _c03.HEADERS + "#include <wchar.h>\n#include <uchar.h>\n"
 
 ADDRS = [0, 1, 1 << 31, 1 << 32, (1 << 47) - 1, 1 << 63, (1 << 64) - 1]
@@ -51,23 +74,30 @@ def c_type_of(t):
     return "unsigned char" if t == "char" else t
 
 
+def c_defs():
+    """C text of every non-primitive target type."""
+    return (_c03.c_defs(sorted(_c03.ENUMS) + sorted(APIDEFS)) + "".join(TYPEDEFS[t] + "\n" for t in sorted(TYPEDEFS)))
+
+
 def types_and_facts():
     ints = _c03.all_types()
-    facts = _c03.measure(ints)
-    # character types: measured by gcc, except that cffi's 'char' is a byte 0..255 by definition
-    src = HEADERS + "#include <stdio.h>\nint main(void){\n"
-    for t in CHARS[1:]:
+    api = _c03.api_only_types()
+    facts = _c03.measure(ints + api)
+    # character types and typedef names: measured by gcc, except that cffi's 'char' is a byte 0..255 by definition
+    src = HEADERS + "#include <stdio.h>\n" + "".join(TYPEDEFS[t] + "\n" for t in sorted(TYPEDEFS))
+    src += "int main(void){\n"
+    for t in CHARS[1:] + sorted(TYPEDEFS):
         src += 'printf("%%s|%%d|%%d\\n", "%s", (int)sizeof(%s), (int)(((%s)-1) < (%s)0));\n' % (t, t, t, t)
     src += "return 0;}\n"
     for line in cref.run_c(src).splitlines():
         n, s, sg = line.split("|")
         facts[n] = (int(s), bool(int(sg)))
     facts["char"] = (1, False)
-    return ints + CHARS, facts
+    return ints + CHARS + sorted(TYPEDEFS) + api, facts
 
 
 def ref_source(types, facts):
-    out = [HEADERS, "".join(v + "\n" for v in _c03.ENUMS.values())]
+    out = [HEADERS, c_defs()]
     for t in types:
         size, sg = facts[t]
         w = "long long" if sg else "unsigned long long"
@@ -133,19 +163,60 @@ def reduce_ref(n, size, sg, is_bool):
 def type_class(t, size, sg):
     if t in CHARS:
         return "char:" + t
+    if t in TYPEDEFS:
+        return "typedef_" + ("bool" if t in BOOLS else ("enum_" if "_e" in t else "") + ("s" if sg else "u") +
+                             str(8 * size))
     return _c03.type_class(t, size, sg)
+
+
+def encode(v, size):
+    return (v & ((1 << (8 * size)) - 1)).to_bytes(size, sys.byteorder)
 
 
 _REF = None        # ctypes CDLL with the gcc conversions
 _SO = None
 _FACTS = None
 _QUICK = True
+_API = None        # (ffi, lib) of a compiled API-mode module declaring every target type
+_OOL = None        # ffi of an out-of-line ABI module declaring every target type an ABI-mode cdef can
+
+
+def cdef_types(api):
+    out = "".join(v + "\n" for v in _c03.ENUMS.values())
+    out += "".join(TYPEDEFS[t] + "\n" for t in sorted(TYPEDEFS))
+    if api:
+        out += "".join(APIDEFS[t][0] + "\n" for t in sorted(APIDEFS))
+    return out
+
+
+def build_modules():
+    """The API-mode module (compiled) and the out-of-line ABI module (generated Python)."""
+    global _API, _OOL
+    import cffi
+    d = os.path.join(build.scratch_shared(), "c04_%d" % os.getpid())
+    os.makedirs(d, exist_ok=True)
+    name = "_c04api_%d" % os.getpid()
+    fb = cffi.FFI()
+    fb.cdef(cdef_types(True) + "int some_function(int);")
+    fb.set_source(name, HEADERS + c_defs() + "int some_function(int x) { return x + 1; }\n",
+                  extra_compile_args=["-O0"])
+    so = fb.compile(tmpdir=d)
+    mod = _c03._import(name, so)
+    _API = (mod.ffi, mod.lib)
+    oname = "_c04ool_%d" % os.getpid()
+    fo = cffi.FFI()
+    fo.cdef(cdef_types(False))
+    fo.set_source(oname, None)
+    opath = os.path.join(d, oname + ".py")
+    with contextlib.redirect_stdout(io.StringIO()):
+        fo.emit_python_code(opath)
+    _OOL = _c03._import(oname, opath).ffi
 
 
 def gcc_value(t, kind, x):
     """The value C computes, or None where C does not define the conversion."""
     size, sg = _FACTS[t]
-    is_bool = t == "_Bool"
+    is_bool = t in BOOLS
     i = ident(t)
     rty = ctypes.c_longlong if sg else ctypes.c_ulonglong
     if kind == "float":
@@ -173,7 +244,8 @@ class PtrWorld(object):
     def __init__(self):
         import cffi
         self.ffi = ffi = cffi.FFI()
-        ffi.cdef("struct opaque_s; void take_ptr(void *); int some_function(int); extern int some_array[4];")
+        ffi.cdef("struct opaque_s; void take_ptr(void *); int some_function(int); extern int some_array[4];" + STRUCT)
+        ffi.cdef(cdef_types(False))
         self.lib = ffi.dlopen(_SO)
         self.rec = ctypes.c_ulonglong.in_dll(_REF, "rec_ptr")
         self.keep = []
@@ -197,6 +269,31 @@ class PtrWorld(object):
                 ("array@real", "lib array", self.lib.some_array),
                 ("pointer@real", "addressof(lib, array)", ffi.addressof(self.lib, "some_array")),
                 ("pointer@real", "own_arr + 1", own_arr + 1)]
+        # cdata objects with other C layouts (own length, gc, handle, from_buffer of a non-char array), pointers
+        # obtained by addressof / from memory, a function pointer read from a struct field, NULL, and the
+        # function pointer of a compiled (API-mode) module
+        open_arr = ffi.new("int[]", 5)
+        gcp = ffi.gc(ffi.cast("int *", own_arr), lambda p: None)
+        hobj = object()
+        handle = ffi.new_handle(hobj)
+        ba2 = bytearray(16)
+        fb2 = ffi.from_buffer("int[]", ba2)
+        st = ffi.new("struct c04_s *")
+        st.fn = self.lib.some_function
+        st.p = own_arr
+        pp = ffi.new("void **", own_arr)
+        self.keep += [open_arr, gcp, hobj, handle, ba2, fb2, st, pp]
+        real += [("array@real", "int[] (owning, open length)", open_arr), ("pointer@real", "ffi.gc(int *)", gcp),
+                 ("pointer@real", "new_handle", handle), ("array@real", "int[] from_buffer", fb2),
+                 ("pointer@real", "addressof(struct)", ffi.addressof(st[0])),
+                 ("pointer@real", "addressof(struct, field)", ffi.addressof(st, "fn")),
+                 ("function@real", "function pointer read from a struct field", st.fn),
+                 ("pointer@real", "pointer read from a struct field", st.p),
+                 ("pointer@real", "pointer read from memory", pp[0]), ("pointer@real", "NULL", ffi.NULL)]
+        if _API is not None:
+            real.append(("function@real", "addressof(API-mode lib, function)",
+                         _API[0].addressof(_API[1], "some_function")))
+        self.n_real = len(real)
         for kind, name, cd in real:
             srcs.append((kind, name, cd, None))
         # the address of every source, as received by compiled C and read back through ctypes
@@ -227,24 +324,27 @@ _PW = None
 def ptr_world():
     """One PtrWorld per process (the sources are immutable; building one costs a cdef parse)."""
     global _PW
-    import os
     if _PW is None or _PW[0] != os.getpid():
         pw = PtrWorld()
-        pw.ffi.cdef("".join(_c03.ENUMS.values()))
         _PW = (os.getpid(), pw)
     return _PW[1]
 
 
 def check_type(t, quick, only=None):
     """Returns (ncases, hist, nontrivial, bad)."""
-    import cffi
     size, sg = _FACTS[t]
-    is_bool = t == "_Bool"
+    is_bool = t in BOOLS
     lo, hi = cref.int_range(size, sg, is_bool)
     tc = type_class(t, size, sg)
     pw = ptr_world()
-    ffi = pw.ffi
+    # the FFI whose ctype object is the target: the in-line one, or the compiled one for API-mode-only types
+    ffi = _API[0] if t in APIDEFS else pw.ffi
     ct = ffi.typeof(t)
+    pct = ffi.typeof(ffi.getctype(ct, "*"))
+    # the same target named by a string, on each kind of FFI that can declare it
+    by_name = [("str-api", _API[0])]
+    if t not in APIDEFS:
+        by_name = [("str-inline", pw.ffi), ("str-ool", _OOL)] + by_name
     hist = {}
     bad = []
     counters = [0, 0]
@@ -252,9 +352,12 @@ def check_type(t, quick, only=None):
     def cnt(k, c=1):
         hist[k] = hist.get(k, 0) + c
 
-    def one(kind, x, n, shown, gkind=None):
+    def one(kind, x, n, shown, via=None):
         """kind: source kind; x: the object given to cast; n: x truncated toward zero as an integer
-        (address / code point); shown: replayable description of x."""
+        (address / code point); shown: replayable description of x; via: None = ffi.cast(ctype object, x), or
+        (label, FFI) = FFI.cast(type name, x)."""
+        if via is not None:
+            kind = "%s/%s" % (kind, via[0])
         if only is not None and (kind.split("@")[0], shown) != only:
             return
         counters[0] += 1
@@ -275,7 +378,10 @@ def check_type(t, quick, only=None):
         cnt("oracle:" + ("model+gcc" if g is not None else "model_only(C leaves it undefined or has no such operand)"))
         sig = {"source": kind, "type_class": tc, "input_class": icl}
         try:
-            cd = ffi.cast(ct, x)
+            if via is None:
+                cd = ffi.cast(ct, x)
+            else:
+                cd = via[1].cast(t, x)
             got = int(cd)
         except Exception as e:
             bad.append((dict(sig, kind="raised"), {"type": t, "source": kind, "input": shown, "kind": "raised",
@@ -284,12 +390,28 @@ def check_type(t, quick, only=None):
         if got != want or type(got) is not int:
             bad.append((dict(sig, kind="value"), {"type": t, "source": kind, "input": shown, "kind": "value",
                                                    "got": got, "expected": want, "gcc": g}))
-        elif ffi.typeof(cd) is not ct:
+            return
+        if via is None and ffi.typeof(cd) is not ct:
             bad.append((dict(sig, kind="result-type"), {"type": t, "source": kind, "input": shown,
                                                          "kind": "result-type", "got": str(ffi.typeof(cd))}))
+            return
+        # the bytes the result holds (what a C function or a store would get), not only what int() makes of them
+        try:
+            if via is None:
+                stored = bytes(ffi.buffer(ffi.new(pct, cd)))
+            else:
+                stored = bytes(via[1].buffer(via[1].new(t + " *", cd)))
+        except Exception as e:
+            stored = "%s: %s" % (type(e).__name__, e)
+        if stored != encode(want, size):
+            bad.append((dict(sig, kind="stored-bytes"), {
+                "type": t, "source": kind, "input": shown, "kind": "stored-bytes",
+                "got": stored.hex() if isinstance(stored, bytes) else stored, "expected": encode(want, size).hex()}))
 
     for v in int_values(lo, hi, quick):
         one("int", v, v, ["int", v])
+        for via in by_name:
+            one("int", v, v, ["int", v], via)
     for x in float_values(quick):
         one("float", x, int(x), ["float", x.hex()])
     for b in (False, True):
@@ -338,6 +460,7 @@ def setup():
     _FACTS = facts
     _SO = cref.compile_so(ref_source(types, facts), name="c04ref")
     _REF = ctypes.CDLL(_SO)
+    build_modules()
     return types
 
 
@@ -347,11 +470,17 @@ def run(ctx):
     types = setup()
     import cffi
     probe = cffi.FFI()
-    probe.cdef("".join(_c03.ENUMS.values()))
+    probe.cdef(cdef_types(False))
+    usable = []
     for t in types:
-        if probe.sizeof(t) != _FACTS[t][0]:
+        pf = _API[0] if t in APIDEFS else probe
+        if pf.sizeof(t) != _FACTS[t][0]:
+            # the reference of such a type would be for another size: reported, not explored
             ctx.violation({"kind": "sizeof", "type_class": type_class(t, *_FACTS[t])},
-                          {"type": t, "kind": "sizeof", "cffi": probe.sizeof(t), "gcc": _FACTS[t][0]})
+                          {"type": t, "kind": "sizeof", "cffi": pf.sizeof(t), "gcc": _FACTS[t][0]})
+        else:
+            usable.append(t)
+    types = usable
     for name, a, seen in ptr_world().mismatches:
         ctx.violation({"kind": "int-to-pointer", "ctype": name, "address_class": "high" if a >= 1 << 31 else "low"},
                       {"type": name, "kind": "int-to-pointer", "address": a, "arrives_in_C_as": seen})
@@ -377,20 +506,27 @@ def run(ctx):
             ctx.violation(sig, info)
         ctx.sample({"type": t, "size": _FACTS[t][0], "signed": _FACTS[t][1],
                     "example": "int(ffi.cast(%r, 2**64 + 1)) == %d" % (
-                        t, reduce_ref((1 << 64) + 1, _FACTS[t][0], _FACTS[t][1], t == "_Bool"))})
+                        t, reduce_ref((1 << 64) + 1, _FACTS[t][0], _FACTS[t][1], t in BOOLS))})
     cov = {
         "evaluations": total,
         "distinct_nontrivial": nontrivial,
         "types": len(types),
-        "rule": "every integer type of cffi's primitive table + _Bool + 4 enums + char, wchar_t, char16_t, char32_t x "
-                "{ints: B(T) + B(long long) + B(unsigned long long)%s; floats: +-{0, 0.5, 0.99.., 1.5, 2.5, 2^k, 2^k+-1, "
+        "rule": "every integer type of cffi's primitive table + _Bool + 4 enums + char, wchar_t, char16_t, char32_t + 6 "
+                "typedef names (integer, _Bool and anonymous-enum typedefs) + 12 API-mode-only types (8 'typedef int... "
+                "T', 4 partial enums; cast on the compiled FFI) x "
+                "{ints: B(T) + B(long long) + B(unsigned long long)%s, each with the target given as a ctype object and "
+                "as a type name on the in-line, the out-of-line ABI and the compiled API-mode FFI; floats: +-{0, 0.5, "
+                "0.99.., 1.5, 2.5, 2^k, 2^k+-1, "
                 "2^k+-0.5, 2^k+-1.5, 2^k+-ulp for k in %s, 1e300, DBL_MAX, DBL_MIN, 5e-324}; False/True; all 256 "
                 "one-byte bytes; %d one-character str; %d pointer/array/function cdata (8 ctypes x 7 synthetic addresses "
-                "+ 9 real objects)} + pointer->intptr_t/uintptr_t->pointer round trips; non-trivial = the source does "
+                "+ %d real objects: owning / open-length / from_buffer arrays, ffi.gc, new_handle, addressof of a struct "
+                "and of a field, pointers and a function pointer read from memory, NULL, callback, library functions of "
+                "an in-line and of a compiled module)} + pointer->intptr_t/uintptr_t->pointer round trips; observed: "
+                "int() of the result and the bytes it stores through ffi.new; non-trivial = the source does "
                 "not fit T (wraps) or is exactly a bound of T, or is a cdata at a real address, or a round trip (distinct (type, source) pairs)" % (
                     "" if ctx.quick else " + bounds of every width +-40 + +-2^k+-{0,1} for k<200 + [-70000,70000] + "
                     "3^200, 2^4000", "{7,8,15,16,31,32,52,53,63,64,100}" if ctx.quick else "0..1023 (+ 2^-k, n/4)",
-                    len(STRS), 8 * len(ADDRS) + 9),
+                    len(STRS), 8 * len(ADDRS) + ptr_world().n_real, ptr_world().n_real),
         "exhaustive": True,
         "bound": {"ints": "B(T)+B(ll)+B(ull)" if ctx.quick else "dense", "float_exponents": 11 if ctx.quick else 1024},
     }
